@@ -134,6 +134,29 @@ static void elim_sweep_case(int k, int kbar, int which) {
   vh_free_all();
 }
 
+/* hybrid elimination: sparse inputs wide enough (> 256 columns processed) for the density check inside the
+ * M4RI block loop to hand over to the PLUQ route mid-way (fill-in raises the density above the threshold) */
+static void elim_hybrid_case(const vh_args_t *a, int which) {
+  int m = vh_pick((int[]){300, 333, 400, 450}, 4), n = vh_pick((int[]){300, 320, 390, 470}, 4);
+  if (a->tier && vh_randint(0, 2) == 0) { m = vh_randint(500, 700); n = vh_randint(500, 900); }
+  mzd_t *A = vh_mk(m, n, -1);
+  int per_row = vh_pick((int[]){3, 5, 8, 12}, 4);   /* 1% .. 4% ones */
+  vh_fill_sparse(A, per_row);
+  int full = vh_randint(0, 1);
+  /* threshold just above the input density, or the library default 0.15 */
+  int dens_pm = per_row * 1000 / n;
+  int th = vh_pick((int[]){0, 0, 1, 2}, 4) == 0 ? 150 : dens_pm + vh_pick((int[]){1, 5, 20}, 3);
+  vh_ev_t e;
+  vh_begin(&e, which ? "_echelonize_m4ri" : "echelonize");
+  vh_pi(&e, "full", full); vh_pi(&e, "k", 0); vh_pi(&e, "heur", 1); vh_pi(&e, "thr", which ? th : 150); vh_pi(&e, "hybrid", 1);
+  vh_opnd(&e, "A", 'b', A);
+  vh_pre(&e);
+  if (VH_CALL(&e)) e.ret = which ? _mzd_echelonize_m4ri(A, full, 0, 1, th / 1000.0) : mzd_echelonize(A, full);
+  VH_END(&e);
+  vh_post(&e);
+  vh_free_all();
+}
+
 int fam_elim(const vh_args_t *a) {
   int ncases = a->cases ? a->cases : (a->tier ? 4000 : 700);
   for (long idx = 0; idx < ncases; idx++) {
@@ -144,6 +167,17 @@ int fam_elim(const vh_args_t *a) {
     VH_CASE_END
   }
   if (strstr(a->extra, "nosweep")) return 0;
+  {
+    int nh = a->tier ? 60 : 8;
+    for (long h = 0; h < nh; h++) {
+      long hidx = 1000000 + h;
+      if (!VH_SHARD(a, hidx)) continue;
+      vh_case_seed(a, hidx);
+      VH_CASE(hidx)
+      elim_hybrid_case(a, (int)(h % 2));
+      VH_CASE_END
+    }
+  }
   /* deterministic sweep over (k, kbar, entry point); quick: a third of it, rotating with the seed */
   long sidx = ncases;
   for (int k = 1; k <= 8; k++)
